@@ -2,6 +2,7 @@
 from __future__ import annotations
 
 import json
+import re
 import token as T
 
 import common
@@ -23,9 +24,17 @@ SEEDS = [
     "start: w+ NEWLINE\nw: n=NAME !r { mk(LOCATIONS) }\nr: m=NUMBER { None }\n",
     # an optional item whose rule fails after a cut: the span must end at the last token really matched
     "start: n=NAME a=[annot] ';' { mk(LOCATIONS) } | NAME ':' NAME { mk(LOCATIONS) }\nannot: ':' ~ NAME '!'\n",
+    # an optional rule that matched tokens but whose value is falsy, asked for a second time at the same position (served
+    # from the cache): the span of the second alternative must still cover its tokens
+    "start: NAME [args] '=' NUMBER NEWLINE { mk(LOCATIONS) } | NAME [args] NEWLINE { mk(LOCATIONS) }\nargs: '(' [NAME] ')' { [] }\n",
+    "start: NAME [args] '=' NUMBER { mk(LOCATIONS) } | NAME [args] { mk(LOCATIONS) }\nargs: '(' [NAME] ')' { 0 }\n",
+    # an item the grammar calls `tok` (the generated code keeps the first token in a local of that name)
+    "start: q NEWLINE\nq: n=NUMBER tok=NAME { foo(tok, mk(LOCATIONS)) } | tok=NAME { foo(tok, mk(LOCATIONS)) }\n",
+    "start: '-' n=NUMBER tok=NAME NEWLINE { foo(n, tok, mk(LOCATIONS)) }\n",
 ]
 LAYOUT = {T.NEWLINE, T.INDENT, T.DEDENT, T.ENDMARKER}
-EXTRA = ["x 1 y\n", "x : y\n", "x : y ! ;\n", "x ;\n", "x 1 2 3\n", "x 1 2\n", "x = 1 y = 2 z = 3\n", "x :\n y\n", "x x\n", "x = 1 x\n", "1 + 2 + 3\n", "x\n", "x 1\n"]
+EXTRA = ["x 1 y\n", "x : y\n", "x : y ! ;\n", "x ;\n", "x 1 2 3\n", "x 1 2\n", "x = 1 y = 2 z = 3\n", "x :\n y\n", "x x\n", "x = 1 x\n", "1 + 2 + 3\n", "x\n", "x 1\n", "f ( )\n", "f ( a )\n",
+         "f ( a ) = 1\n", "f\n", "f = 1\n", "10 px\n", "px\n", "- 2 em\n"]
 
 
 def expected_span(tokens, s, e):
@@ -50,18 +59,31 @@ def run(chk: common.Check, tier: str):
     pairs = rm.krun(chk, "C15", texts, lambda t: A.inputs_upto(A.alphabet(t), 3, nin) + (EXTRA if t in SEEDS else []),
                     configs=("q1", "q0", "v1", "v0"))
     for t, rj in pairs:
-        if not t.startswith("start:") or "{ mk(LOCATIONS) }" not in t.split("\n")[0]:
+        if not t.startswith("start:") or "mk(LOCATIONS)" not in t.split("\n")[0]:
             continue
-        # direct oracle for the start rule when ALL its alternatives return mk(LOCATIONS)
+        # direct oracle for the start rule when ALL its alternatives return mk(LOCATIONS), bare or as a direct argument
+        # of foo(...): that location is the span of the start rule's own match
         first = t.split("\n")[0]
         alts = first[len("start:"):].split(" | ")
-        if not all(a.rstrip().endswith("{ mk(LOCATIONS) }") for a in alts) or "(" in first.replace("mk(LOCATIONS)", ""):
+        acts = [a[a.rfind("{"):].strip() for a in alts]
+        if not all(a.rstrip().endswith("}") and "{" in a and re.fullmatch(r"\{ (mk\(LOCATIONS\)|foo\(([\w]+, )*mk\(LOCATIONS\)(, [\w]+)*\)) \}", c)
+                   for a, c in zip(alts, acts)):
+            continue
+        if "(" in re.sub(r"\{[^{}]*\}", "", first):
             continue
         for one in rj["results"]:
             for cfg, x in one["runs"].items():
                 if x["kind"] != "ok" or not isinstance(x.get("value"), dict) or "o" not in x["value"]:
                     continue
-                got = x["value"]["o"][1:]
+                v = x["value"]["o"]
+                if v and v[0] == "foo":
+                    inner = [a for a in v[1:] if isinstance(a, dict) and "o" in a and a["o"] and a["o"][0] == "mk"]
+                    if len(inner) != 1:
+                        continue
+                    v = inner[0]["o"]
+                if not v or v[0] != "mk":
+                    continue
+                got = v[1:]
                 exp = expected_span(one["tokens"], 0, x["mark"])
                 if exp is None:
                     continue
